@@ -13,7 +13,33 @@ REPO = os.environ.get('VF_REPO', '/repo')
 VERIF = os.path.dirname(os.path.dirname(os.path.abspath(__file__)))
 MEM_LIMIT_KB = 14 * 1024 * 1024
 import threading
-SOLVER_SLOTS = threading.BoundedSemaphore(int(os.environ.get('VF_SLOTS', '0')) or (os.cpu_count() or 4))
+N_SLOTS = int(os.environ.get('VF_SLOTS', '0')) or (os.cpu_count() or 4)
+
+
+class Slots(object):
+    """Weighted admission control: a solver process of weight w occupies w of N_SLOTS units
+    (heavy groups need ~10 GB each; the weight keeps total memory below the machine's)."""
+
+    def __init__(self, n):
+        self.n = n
+        self.free = n
+        self.cv = threading.Condition()
+
+    def acquire(self, w):
+        w = min(w, self.n)
+        with self.cv:
+            while self.free < w:
+                self.cv.wait()
+            self.free -= w
+        return w
+
+    def release(self, w):
+        with self.cv:
+            self.free += w
+            self.cv.notify_all()
+
+
+SOLVER_SLOTS = Slots(N_SLOTS)
 
 
 class Infra(Exception):
@@ -83,7 +109,7 @@ class Group(object):
                  loops=None, normalise=False, defines=(), cbmc=(), solver='sat', timeout=600,
                  tier='quick', malloc_fail=None, expect_min=1, must_have=(), covers=('end',),
                  what='', scope=None, replay=None, unwind=None, gen=None, functions=(),
-                 instances=None, apply_loops=None, extra_instrument=(), object_bits=None, cover_solver=False, shards=None):
+                 instances=None, apply_loops=None, extra_instrument=(), object_bits=None, cover_solver=False, shards=None, weight=1):
         self.gid = gid
         self.props = list(props)
         self.kind = kind
@@ -115,6 +141,7 @@ class Group(object):
         self.extra_instrument = list(extra_instrument)
         self.object_bits = object_bits
         self.cover_solver = cover_solver
+        self.weight = weight
         self.shards = 1 if shards is None else shards
 
 
@@ -314,8 +341,11 @@ def _run_group(g, r, sdir, log):
     results = []
 
     def one(extra):
-        with SOLVER_SLOTS:
+        w = SOLVER_SLOTS.acquire(g.weight)
+        try:
             rc, out, dt = sh(chk + extra, sdir, g.timeout, log)
+        finally:
+            SOLVER_SLOTS.release(w)
         if rc not in (0, 10):
             raise Infra("cbmc exited with %d, see %s" % (rc, log))
         doc = _parse_cbmc_json(out)
@@ -385,8 +415,11 @@ def _run_group(g, r, sdir, log):
             cov += ['--property', n]
         if g.solver == 'cvc5' and g.cover_solver:
             cov += ['--cvc5']
-        with SOLVER_SLOTS:
+        w = SOLVER_SLOTS.acquire(g.weight)
+        try:
             rc, out, dt = sh(cov, sdir, g.timeout, log)
+        finally:
+            SOLVER_SLOTS.release(w)
         r.solver_s += dt
         if rc not in (0, 10):
             raise Infra("cbmc vacuity run exited with %d" % rc)
